@@ -167,5 +167,5 @@ def run(rep, tier):
                        'gives DivisionByZero / None and nothing else does; 0/y = (0,0); x/1 = x unchanged; otherwise the returned (c, f) satisfies c*10^(18-f) = Rnd[thread](10^(18+q-p) x / y) '
                        '(cross-multiplied rationals, through the equalities recorded by the normalisation loop) with f = 0 or c mod 10 != 0; the only other failure is the rounded quotient '
                        'not fitting i128 (InternalOverflow / None). checked_div has no panic edge.')
-    rep.assume('modulo the summaries R (proved in C05) and W (proved in C16 under contract U of the unsigned 256-bit kernels)')
+    rep.assume('modulo the summaries R (proved in C05) and W (proved in C16 down to the unsigned 256-bit kernels, Knuth-D included; the relevant proofs are re-run here as DEP-* obligations)')
     rep.trust('rustc nightly MIR; absint transfer functions and callee models')
